@@ -50,7 +50,8 @@ Qed.
 Section Fixed.
 Variable single : bool.
 Variable ext : list Z.
-Notation cfx := (cfgF single ext) (only parsing).
+Variable tight : bool.
+Notation cfx := (cfgF single ext tight) (only parsing).
 
 (* ---------------------------------------------------------------- leaf facts *)
 Lemma take_rand_length : forall rand n, length (fst (take_rand rand n)) = n.
@@ -105,17 +106,20 @@ Proof.
 Qed.
 
 (* ---------------------------------------------------------------- soundness invariant *)
+(* the server holds a challenge and waits for the response (directly or inside the TightVNC handler) *)
+Definition awaiting (c : conn) : Prop := c_st c = StAuth \/ c_st c = StTResp.
+
 Definition ok (s : screen) (c : conn) : Prop :=
   (protected s c = true -> granted c = true -> proved c) /\
-  (c_st c = StAuth -> c_chal c = c_sent c /\ length (c_sent c) = 16%nat).
+  (awaiting c -> c_chal c = c_sent c /\ length (c_sent c) = 16%nat).
 
 Definition same (c c' : conn) : Prop := c_screen c' = c_screen c /\ c_rev c' = c_rev c.
 
-Lemma ok_idle : forall s c, granted c = false -> c_st c <> StAuth -> ok s c.
-Proof. intros s c Ha Hs. split; intros; [congruence | contradiction]. Qed.
+Lemma ok_idle : forall s c, granted c = false -> c_st c <> StAuth -> c_st c <> StTResp -> ok s c.
+Proof. intros s c Ha Hs Ht. split; [intros; congruence | intros [H|H]; contradiction]. Qed.
 
-Lemma ok_unprotected : forall s c, protected s c = false -> c_st c <> StAuth -> ok s c.
-Proof. intros s c Hp Hs. split; intros; [congruence | contradiction]. Qed.
+Lemma ok_unprotected : forall s c, protected s c = false -> c_st c <> StAuth -> c_st c <> StTResp -> ok s c.
+Proof. intros s c Hp Hs Ht. split; [intros; congruence | intros [H|H]; contradiction]. Qed.
 
 Lemma ok_closed : forall s c, ok s (set_st c StClosed).
 Proof. intros. apply ok_idle; cbn; congruence. Qed.
@@ -137,7 +141,7 @@ Lemma client_init_ok : forall s c b c' co,
   client_init s c b = (c', co) -> ok s c -> granted c = true -> same c c' /\ ok s c'.
 Proof.
   intros s c b c' co H [Hok _] Ha. unfold client_init in H. injection H as <- <-.
-  split; [split; reflexivity|]. split; [|cbn; discriminate].
+  split; [split; reflexivity|]. split; [|intros [H|H]; discriminate H].
   intros Hp _. destruct (Hok Hp Ha) as [r [pw [H1 [H2 H3]]]]. exists r, pw. cbn. auto.
 Qed.
 
@@ -145,7 +149,7 @@ Lemma client_init_unprotected : forall s c b c' co,
   client_init s c b = (c', co) -> protected s c = false -> same c c' /\ ok s c'.
 Proof.
   intros s c b c' co H Hp. unfold client_init in H. injection H as <- <-.
-  split; [split; reflexivity|]. apply ok_unprotected; cbn; [exact Hp|discriminate].
+  split; [split; reflexivity|]. apply ok_unprotected; cbn; [exact Hp|discriminate|discriminate].
 Qed.
 
 Lemma auth_none_ok : forall s c c' co,
@@ -159,7 +163,7 @@ Proof.
   - destruct (client_init_unprotected s c1 1%N c' co H Hp1) as [[Ha Hb] Hok].
     destruct Hs as [Hs1 Hs2]. split; [split; congruence|exact Hok].
   - injection H as <- <-. split; [destruct Hs; split; cbn; assumption|].
-    apply ok_unprotected; [exact Hp1|cbn; discriminate].
+    apply ok_unprotected; [exact Hp1|cbn; discriminate|cbn; discriminate].
 Qed.
 
 Lemma send_type_list_ok : forall cf s e c primary e' c',
@@ -182,7 +186,7 @@ Proof.
     + change (c05_rfbSecTypeVncAuth =? c05_rfbSecTypeNone)%Z with false in H.
       destruct (send_challenge_ok s _ _ _ _ H) as [[Ha Hb] [Hok _]]. split; [split; assumption|exact Hok].
     + change (c05_rfbSecTypeNone =? c05_rfbSecTypeNone)%Z with true in H.
-      injection H as <- <-. split; [split; reflexivity|]. apply ok_unprotected; [exact Hp|cbn; discriminate].
+      injection H as <- <-. split; [split; reflexivity|]. apply ok_unprotected; [exact Hp|cbn; discriminate|cbn; discriminate].
   - eapply send_type_list_ok. exact H.
 Qed.
 
@@ -195,6 +199,14 @@ Proof.
     + injection H as <- <-. split; [split; reflexivity|apply ok_closed].
     + destruct (auth_new_client_ok _ s _ _ _ _ H) as [[Ha Hb] Hok]. split; [split; assumption|exact Hok].
   - injection H as <- <-. split; [split; reflexivity|apply ok_closed].
+Qed.
+
+Lemma tight_start_ok : forall s c, same c (tight_start s c) /\ ok s (tight_start s c).
+Proof.
+  intros s c. unfold tight_start. fold (protected s c). destruct (protected s c) eqn:Hp.
+  - split; [split; reflexivity|]. apply ok_idle; cbn; congruence.
+  - split; [destruct (7 <? c_minor c)%Z; split; reflexivity|].
+    apply ok_unprotected; [destruct (7 <? c_minor c)%Z; exact Hp|cbn; discriminate|cbn; discriminate].
 Qed.
 
 Lemma on_sectype_ok : forall s e c chosen e' c' co,
@@ -210,9 +222,23 @@ Proof.
       destruct (send_challenge_ok s _ _ _ _ Es) as [Hs [Hok _]]. split; assumption.
     + destruct (auth_none s c) as [c1 co1] eqn:Ea. injection H as <- <- <-.
       eapply auth_none_ok; [exact Ea|]. apply HN. reflexivity.
-    + injection H as <- <- <-. split; [split; reflexivity|apply ok_closed].
+    + destruct (cfg_tight (cfgF single ext tight) && Nat.eqb k 2).
+      * injection H as <- <- <-. apply tight_start_ok.
+      * injection H as <- <- <-. split; [split; reflexivity|apply ok_closed].
     + injection H as <- <- <-. split; [split; reflexivity|apply ok_closed].
   - injection H as <- <- <-. split; [split; reflexivity|apply ok_closed].
+Qed.
+
+Lemma on_tight_auth_ok : forall s e c msg e' c',
+  on_tight_auth e c msg = (e', c') -> same c c' /\ ok s c'.
+Proof.
+  intros s e c msg e' c' H. unfold on_tight_auth in H.
+  destruct (N.eqb (bytes_to_N msg) (Z.to_N c05_rfbSecTypeVncAuth)).
+  - destruct (send_challenge e c) as [e1 c1] eqn:Es. injection H as <- <-.
+    destruct (send_challenge_ok s _ _ _ _ Es) as [[S1 S2] [[_ Hok] Hst]].
+    split; [split; cbn; assumption|]. split; [cbn; discriminate|].
+    intros _. cbn. apply Hok. left. exact Hst.
+  - injection H as <- <-. split; [split; reflexivity|apply ok_closed].
 Qed.
 
 Lemma password_check_fixed : forall s c resp b c1,
@@ -241,7 +267,7 @@ Proof.
 Qed.
 
 Lemma on_response_ok : forall s e c resp e' c',
-  on_response cfx s e c resp = (e', c') -> ok s c -> c_st c = StAuth -> same c c' /\ ok s c'.
+  on_response cfx s e c resp = (e', c') -> ok s c -> awaiting c -> same c c' /\ ok s c'.
 Proof.
   intros s e c resp e' c' H [_ Hauth] Hst. destruct (Hauth Hst) as [Hch Hlen].
   unfold on_response in H.
@@ -250,7 +276,7 @@ Proof.
   cbn in S1, S2, Hr, Hs, Hst1, Hpws.
   destruct b.
   - injection H as <- <-. split; [split; cbn; assumption|].
-    split; [|cbn; discriminate]. intros _ _.
+    split; [|intros [A|A]; discriminate A]. intros _ _.
     destruct (Hpw eq_refl) as [pw [Hin Henc]]. { cbn. rewrite Hch. exact Hlen. }
     exists resp, pw. cbn. rewrite Hr, Hs, Hpws. cbn in Henc. rewrite Hch in Henc. auto.
   - injection H as <- <-. split.
@@ -266,8 +292,11 @@ Proof.
   - destruct (on_version cfx s e c msg) as [e1 c1] eqn:E. injection H as <- <- <-. eapply on_version_ok; eauto.
   - destruct msg as [|b msg]; [injection H as <- <- <-; split; [split; reflexivity|exact Hok]|].
     eapply on_sectype_ok; eauto.
+  - destruct (on_tight_auth e c msg) as [e1 c1] eqn:E. injection H as <- <- <-. eapply on_tight_auth_ok; eauto.
   - destruct (on_response cfx s e c msg) as [e1 c1] eqn:E. injection H as <- <- <-.
-    eapply on_response_ok; eauto.
+    eapply on_response_ok; eauto. right. exact Hst.
+  - destruct (on_response cfx s e c msg) as [e1 c1] eqn:E. injection H as <- <- <-.
+    eapply on_response_ok; eauto. left. exact Hst.
   - destruct msg as [|b msg]; [injection H as <- <- <-; split; [split; reflexivity|exact Hok]|].
     destruct (client_init s c b) as [c1 co1] eqn:E. injection H as <- <- <-.
     eapply client_init_ok; eauto. unfold granted. rewrite Hst. reflexivity.
@@ -320,7 +349,7 @@ Proof.
     by (apply put_conn_inv; [exact Hinv|apply conn_ok_closed; exact Hc]).
   assert (Hround : forall st, c_st c = st ->
     inv (match buf with
-         | [] => if eof then put_conn p (env_of p) ci (set_st c StClosed) false else p
+         | [] => if eof || blocking st then put_conn p (env_of p) ci (set_st c StClosed) false else p
          | _ :: _ =>
            if Nat.ltb (length buf) (msg_len st) then put_conn p (env_of p) ci (set_st c StClosed) false
            else
@@ -336,7 +365,7 @@ Proof.
              end
          end)).
   { intros st Hst.
-    destruct buf as [|b buf]; [destruct eof; [exact Hclose|exact Hinv]|].
+    destruct buf as [|b buf]; [destruct (eof || blocking st); [exact Hclose|exact Hinv]|].
     destruct (Nat.ltb (length (b :: buf)) (msg_len st)); [exact Hclose|].
     destruct Hc as [s [Hs Hok]]. rewrite Hs.
     destruct (on_message cfx s (env_of p) c (firstn (msg_len st) (b :: buf))) as [[e' c'] co] eqn:Eo.
@@ -346,6 +375,8 @@ Proof.
   destruct (c_st c) eqn:Hst.
   - exact (Hround StPV eq_refl).
   - exact (Hround StSec eq_refl).
+  - exact (Hround StTAuth eq_refl).
+  - exact (Hround StTResp eq_refl).
   - exact (Hround StAuth eq_refl).
   - exact (Hround StInit eq_refl).
   - destruct buf; [|exact Hinv]. destruct eof; [exact Hclose|exact Hinv].
@@ -555,9 +586,9 @@ Proof.
 Qed.
 
 Lemma deliver_nil : forall f cf p ci c,
-  nth_error (p_conns p) ci = Some c -> deliver (S f) cf p ci [] false = p.
+  nth_error (p_conns p) ci = Some c -> blocking (c_st c) = false -> deliver (S f) cf p ci [] false = p.
 Proof.
-  intros f cf p ci c H. cbn [deliver]. rewrite H. destruct (c_st c); reflexivity.
+  intros f cf p ci c H Hb. cbn [deliver]. rewrite H. destruct (c_st c); try discriminate Hb; reflexivity.
 Qed.
 
 Definition handshaking (c : conn) : Prop :=
@@ -568,10 +599,10 @@ Lemma deliver_one : forall cf p ci c s msg e' c' co,
   nth_error (p_conns p) ci = Some c ->
   nth_error (p_screens p) (c_screen c) = Some s ->
   handshaking c -> length msg = msg_len (c_st c) ->
-  on_message cf s (env_of p) c msg = (e', c', co) ->
+  on_message cf s (env_of p) c msg = (e', c', co) -> blocking (c_st c') = false ->
   deliver (S (length msg)) cf p ci msg false = put_conn p e' ci c' co.
 Proof.
-  intros cf p ci c s msg e' c' co Hn Hs Hh Hl Ho.
+  intros cf p ci c s msg e' c' co Hn Hs Hh Hl Ho Hnb.
   assert (Hpos : exists k, msg_len (c_st c) = S k).
   { destruct Hh as [H|[H|[H|H]]]; rewrite H; vm_compute; eexists; reflexivity. }
   destruct Hpos as [k Hk].
@@ -581,7 +612,7 @@ Proof.
   assert (Hfirst : firstn (msg_len (c_st c)) (b :: msg) = b :: msg) by (rewrite <- Hl; apply firstn_all).
   assert (Hskip : skipn (msg_len (c_st c)) (b :: msg) = []) by (rewrite <- Hl; apply skipn_all).
   assert (Hend : deliver (length (b :: msg)) cf (put_conn p e' ci c' co) ci [] false = put_conn p e' ci c' co).
-  { cbn [length]. eapply deliver_nil. eapply put_conn_nth_self. exact Hn. }
+  { cbn [length]. eapply deliver_nil; [eapply put_conn_nth_self; exact Hn|exact Hnb]. }
   destruct Hh as [H|[H|[H|H]]]; rewrite H in *; rewrite Hlt, Hs, Hfirst, Ho, Hk, <- Hk, Hskip; exact Hend.
 Qed.
 
@@ -620,9 +651,18 @@ Proof.
     + destruct (send_challenge e c) as [e1 c1] eqn:E. injection H as <- <- <-.
       rewrite (send_challenge_hs _ _ _ _ E). exact Hb.
     + destruct (auth_none s c). injection H as <- <- <-. exact Hb.
+    + destruct (cfg_tight cf && Nat.eqb k 2); injection H as <- <- <-; exact Hb.
     + injection H as <- <- <-. exact Hb.
     + injection H as <- <- <-. exact Hb.
-    + injection H as <- <- <-. exact Hb.
+  - destruct (on_tight_auth e c msg) as [e1 c1] eqn:E. injection H as <- <- <-.
+    unfold on_tight_auth in E. destruct (N.eqb (bytes_to_N msg) (Z.to_N c05_rfbSecTypeVncAuth)).
+    + destruct (send_challenge e c) as [e2 c2] eqn:E2. injection E as <- <-.
+      rewrite (send_challenge_hs _ _ _ _ E2). exact Hb.
+    + injection E as <- <-. exact Hb.
+  - destruct (on_response cf s e c msg) as [e1 c1] eqn:E. injection H as <- <- <-.
+    unfold on_response in E.
+    destruct (password_check cf s (set_pws (set_resp c msg) (screen_passwords s)) msg) as [[|] c2];
+      injection E as <- <-; exact Hb.
   - destruct (on_response cf s e c msg) as [e1 c1] eqn:E. injection H as <- <- <-.
     unfold on_response in E.
     destruct (password_check cf s (set_pws (set_resp c msg) (screen_passwords s)) msg) as [[|] c2];
@@ -655,7 +695,7 @@ Proof.
       intros ci c0 Hne H0 Hn0. apply put_conn_nth_other; assumption. }
     assert (Hround : forall st, c_st c = st ->
       let p' := match buf with
-         | [] => if eof then put_conn p (env_of p) cj (set_st c StClosed) false else p
+         | [] => if eof || blocking st then put_conn p (env_of p) cj (set_st c StClosed) false else p
          | _ :: _ =>
            if Nat.ltb (length buf) (msg_len st) then put_conn p (env_of p) cj (set_st c StClosed) false
            else
@@ -674,7 +714,7 @@ Proof.
       (forall ci c0, ci <> cj -> nth_error (p_conns p) ci = Some c0 -> is_normal c0 = false ->
                      nth_error (p_conns p') ci = Some c0)).
     { intros st Hst. cbv zeta.
-      destruct buf as [|b buf]; [destruct eof; [exact Hclose|exact Hsame]|].
+      destruct buf as [|b buf]; [destruct (eof || blocking st); [exact Hclose|exact Hsame]|].
       destruct (Nat.ltb (length (b :: buf)) (msg_len st)); [exact Hclose|].
       destruct (nth_error (p_screens p) (c_screen c)) as [s|]; [|exact Hsame].
       destruct (on_message cf s (env_of p) c (firstn (msg_len st) (b :: buf))) as [[e' c'] co] eqn:Eo.
@@ -686,6 +726,8 @@ Proof.
     destruct (c_st c) eqn:Hst.
     + exact (Hround StPV eq_refl).
     + exact (Hround StSec eq_refl).
+    + exact (Hround StTAuth eq_refl).
+    + exact (Hround StTResp eq_refl).
     + exact (Hround StAuth eq_refl).
     + exact (Hround StInit eq_refl).
     + destruct buf; [|exact Hsame]. destruct eof; [exact Hclose|exact Hsame].
@@ -812,7 +854,7 @@ Proof.
     assert (Hlt : (mi <? 7)%Z = false) by (apply Z.ltb_ge; exact Hmi). rewrite Hlt.
     rewrite Hprim, Heq. reflexivity. }
   rewrite (deliver_one cfx p ci c scr ver _ _ _ Hn Hs (or_introl Hst)
-             ltac:(rewrite Hst, Hl; reflexivity) Ho).
+             ltac:(rewrite Hst, Hl; reflexivity) Ho eq_refl).
   split; [exact Hb'|]. split; [reflexivity|]. split; [reflexivity|].
   exists tl. split; [exact Hin|]. eapply put_conn_nth_self. exact Hn.
 Qed.
@@ -841,7 +883,7 @@ Proof.
     unfold send_challenge, env_of. cbn [e_rand e_hs e_err]. change (Z.to_nat c05_CHALLENGESIZE) with 16%nat.
     destruct (take_rand (p_rand p) 16) as [ch rest]. reflexivity. }
   rewrite (deliver_one cfx p ci c scr [zbyte c05_rfbSecTypeVncAuth] _ _ _ Hn Hs (or_intror (or_introl Hst))
-             ltac:(rewrite Hst; reflexivity) Ho).
+             ltac:(rewrite Hst; reflexivity) Ho eq_refl).
   split; [exact Hb|]. split; [reflexivity|]. eapply put_conn_nth_self. exact Hn.
 Qed.
 
@@ -872,7 +914,7 @@ Proof.
   assert (Ho : on_message cfx scr (env_of p) c r = (env_of p, set_st (add_out c1 auth_ok) StInit, false)).
   { unfold on_message. rewrite Hst. unfold on_response. rewrite Hpc. reflexivity. }
   rewrite (deliver_one cfx p ci c scr r _ _ _ Hn Hs (or_intror (or_intror (or_introl Hst)))
-             ltac:(rewrite Hst, Hr16; reflexivity) Ho).
+             ltac:(rewrite Hst, Hr16; reflexivity) Ho eq_refl).
   split; [reflexivity|]. split; [reflexivity|].
   eexists. split; [eapply put_conn_nth_self; exact Hn|]. cbn. rewrite O1. repeat split; assumption.
 Qed.
@@ -890,7 +932,7 @@ Proof.
                (env_of p, set_st (add_out c (server_init scr)) StNormal, negb (c_rev c) && N.eqb b 0)).
   { unfold on_message. rewrite Hst. reflexivity. }
   rewrite (deliver_one cfx p ci c scr [b] _ _ _ Hn Hs (or_intror (or_intror (or_intror Hst)))
-             ltac:(rewrite Hst; reflexivity) Ho).
+             ltac:(rewrite Hst; reflexivity) Ho eq_refl).
   eexists. split; [eapply put_conn_nth_self; exact Hn|]. split; reflexivity.
 Qed.
 
@@ -997,7 +1039,7 @@ Proof.
   { unfold on_message. rewrite Hst. unfold on_response, password_check. rewrite Hpw. cbn [c_chal set_resp set_pws].
     rewrite Hi. reflexivity. }
   rewrite (deliver_one cfx p ci c scr r _ _ _ Hn Hs (or_intror (or_intror (or_introl Hst)))
-             ltac:(rewrite Hst, Hr; reflexivity) Ho).
+             ltac:(rewrite Hst, Hr; reflexivity) Ho eq_refl).
   eexists. split; [eapply put_conn_nth_self; exact Hn|]. split; [reflexivity|].
   destruct (fvo <=? i)%Z; cbn; [reflexivity|exact Hvo].
 Qed.
@@ -1130,7 +1172,7 @@ Proof.
     unfold send_challenge, env_of. cbn [e_rand e_hs e_err]. change (Z.to_nat c05_CHALLENGESIZE) with 16%nat.
     destruct (take_rand (p_rand p) 16) as [ch rest]. reflexivity. }
   rewrite (deliver_one cfx p ci c scr ver _ _ _ Hn Hs (or_introl Hst)
-             ltac:(rewrite Hst, Hl; reflexivity) Ho).
+             ltac:(rewrite Hst, Hl; reflexivity) Ho eq_refl).
   split; [reflexivity|]. split; [reflexivity|]. eapply put_conn_nth_self. exact Hn.
 Qed.
 
@@ -1193,7 +1235,7 @@ Proof.
   destruct (nth_error (p_conns p) ci) as [c|]; [|reflexivity].
   assert (Hround : forall st,
     match buf with
-    | [] => if eof then put_conn p (env_of p) ci (set_st c StClosed) false else p
+    | [] => if eof || blocking st then put_conn p (env_of p) ci (set_st c StClosed) false else p
     | _ :: _ =>
         if Nat.ltb (length buf) (msg_len st) then put_conn p (env_of p) ci (set_st c StClosed) false
         else match nth_error (p_screens p) (c_screen c) with
@@ -1208,7 +1250,7 @@ Proof.
              end
     end =
     match buf with
-    | [] => if eof then put_conn p (env_of p) ci (set_st c StClosed) false else p
+    | [] => if eof || blocking st then put_conn p (env_of p) ci (set_st c StClosed) false else p
     | _ :: _ =>
         if Nat.ltb (length buf) (msg_len st) then put_conn p (env_of p) ci (set_st c StClosed) false
         else match nth_error (p_screens p) (c_screen c) with
